@@ -1,6 +1,7 @@
 import SkimModel.Model.Reader
 import SkimModel.Model.ReaderFns
 import SkimModel.Spec.Reader
+import SkimModel.Model.Field
 import SkimModel.Driver.Util
 /-
 C06 driver.  Case line (no TAB/newline):
@@ -71,12 +72,14 @@ structure Case where
   close : Option Nat
   stream : Bytes
   wnAll : Bool := false    -- --with-nth shows the whole line (`..` / `1..`): parse_transform_fields = identity
+  nthFields : List SkimModel.Field.FieldRange := []   -- the --nth expression (used with a query only for the literal delimiter `,`)
+  delim : String := "_"
 
 def parse (case : String) : Except String Case :=
   match case.splitOn "|" with
   | [hd, toks] =>
     match hd.splitOn ";" with
-    | [lvl, term, p0, ansi, wn, nth, _delim, query, reads, close] =>
+    | [lvl, term, p0, ansi, wn, nth, delim, query, reads, close] =>
       match ((toks.splitOn " ").filter (· ≠ "")).mapM decHex, decHex query, term.toNat? with
       | some bss, some q, some t =>
         if t > 255 then .error "bad-term" else
@@ -84,7 +87,10 @@ def parse (case : String) : Except String Case :=
               opt := { term := UInt8.ofNat t, ansi := ansi == "1", withNth := wn != "_", nth := nth != "_" },
               print0 := p0 == "1", query := q, reads := decNats reads,
               close := if close == "_" then none else close.toNat?,
-              stream := bss.flatten, wnAll := wn == ".." || wn == "1.." }
+              stream := bss.flatten, wnAll := wn == ".." || wn == "1..",
+              nthFields := if nth == "_" then [] else
+                (nth.splitOn ",").filterMap (fun f => SkimModel.Field.fromStr SkimModel.Field.isAsciiDigit f.toList),
+              delim := delim }
       | _, _, _ => .error "bad-hex"
     | _ => .error "bad-header"
   | _ => .error "bad-case"
@@ -96,7 +102,22 @@ def fns : Fns :=
   { lossy := lossyImpl, stripAnsi := stripAnsiImpl,
     hasAttrs := fun s => s.contains 0x1b, transform := id }
 
-def selOf (c : Case) : Item → Bool := fun it => subseqFold c.query it.text
+/-- delimiter matches of the literal delimiter `,` -/
+def commaMatches (x : Bytes) : List (Nat × Nat) :=
+  (x.zipIdx.filter (fun p => p.1 == 0x2c)).map (fun p => (p.2, p.2 + 1))
+
+/-- does the (one-term, lower-case) query match the item text?  With `--nth` (literal delimiter `,`, no --with-nth) the
+    term has to match inside one of the selected fields OF THE ITEM TEXT — under --ansi that is the stripped text
+    (DefaultSkimItem::new computes the matching ranges on `text.stripped()`; the engines' loop is `Field.matchChars`). -/
+def matchesQ (c : Case) (text : Bytes) : Bool :=
+  if !c.opt.nth then subseqFold c.query text else
+  match SkimModel.Field.parseMatchingFields text (commaMatches text) c.nthFields with
+  | none => false
+  | some rs =>
+    c.query.isEmpty ||
+    rs.any (fun r => subseqFold c.query (SkimModel.Field.sub text (min r.1 text.length) (min r.2 text.length)))
+
+def selOf (c : Case) : Item → Bool := fun it => matchesQ c it.text
 
 def ending (c : Case) : Bytes := if c.print0 then [0] else [10]
 
@@ -181,7 +202,7 @@ def cliRecords (c : Case) (alts : List Bytes) : List (Option Bytes) :=
   alts.flatMap (fun raw =>
     let l := lossyImpl raw
     let text := if c.opt.ansi then stripAnsiImpl l else l     -- (with-nth: only the empty query is generated)
-    if subseqFold c.query text then (accepted c.opt c.wnAll raw).map (fun a => some (a.2 ++ ending c))
+    if matchesQ c text then (accepted c.opt c.wnAll raw).map (fun a => some (a.2 ++ ending c))
     else [none])
 
 def verdict (c : Case) (impl : String) : String :=
@@ -218,7 +239,7 @@ def handle (case : String) (impl : String) : Except String (String × String) :=
   match parse case with
   | .error e => .error e
   | .ok c =>
-    if (c.opt.withNth || c.opt.nth) && !c.query.isEmpty then .error "query-with-fields-unsupported"
+    if (c.opt.withNth || (c.opt.nth && c.delim != "2c")) && !c.query.isEmpty then .error "query-with-fields-unsupported"
     else .ok (modelOut c, verdict c impl)
 
 end SkimModel.Driver.C06
